@@ -1,4 +1,8 @@
 import PymoodeModel.Repair
+import PymoodeModel.Mutation
+import PymoodeModel.Crossover
+import PymoodeModel.Selection
 import PymoodeModel.Proto
 import PymoodeModel.Drv.Common
 import PymoodeModel.Drv.Repair
+import PymoodeModel.Drv.Ops
